@@ -64,6 +64,8 @@ ASSUMPTIONS = [
     "listen() is called before, right after, or while the first one's is waiting for the unanswered config fetch; nothing is injected there, so both must "
     "succeed, each judged on its own (service in Tor and own UPLOADED at firing, open loopback listener on the forwarded port, stop closes it); the twin's "
     "descriptor goes to a directory neither service uses otherwise",
+    "listening ports close asynchronously (stopListening() returns an unfired Deferred, completed by the harness on the next reactor turn, as a real "
+    "twisted Port does): a failing listen() must have no listener open at the very instant its Deferred fails, not only after the reactor was drained",
     "caller-side cancellation: listen()'s Deferred is cancelled right after the call, while the k-th command line is unanswered (every k), "
     "inside the descriptor wait, and by an addTimeout(600) expiring there: listen() must then fail (never succeed), exactly once, and leave no "
     "listener open; a creating command already queued in the control protocol may still go out afterwards - not judged",
@@ -136,7 +138,7 @@ FLOORS = {
               "not_fired_checks": 4500, "not_fired_nor_failed_on_foreign_events_checks": 500, "foreign_window_runs": 120, "gethost_compared": 180, "stop_checked": 180, "stops_after_restart_checked": 90, "leak_checks_after_failure": 1200,
               "failure_errors_compared": 1000, "refusals_before_start_checked": 10, "reactor_watched_for_starts_before_refusal": 14, "config_bootstrap_failures_compared": 150,
               "preconfigured_directory_runs": 15, "twin_runs": 20, "twin_successes_checked": 18, "own_failed_events:REASON=UNEXPECTED": 60, "own_failed_events:REASON=-": 40,
-              "cancellations_checked": 400, "cancelled:cancelled-during-descriptor-wait": 120, "cancelled:cancelled-while-creating": 100,
+              "open_listeners_checked_at_the_instant_of_failure": 1200, "cancellations_checked": 400, "cancelled:cancelled-during-descriptor-wait": 120, "cancelled:cancelled-while-creating": 100,
               "cancelled:cancelled-before-bind": 40, "relisten_runs": 300, "relisten_successes_checked": 150,
               "relisten_open_listener_checks": 100, "relisten_failures_checked": 15, "relisten:after-stop-port-taken": 60,
               "relisten:after-service-removed": 60, "relisten:without-stop": 60, "fault:reject-line": 120, "route:ctor-raw": 100, "fault:close-on-line": 300,
@@ -150,7 +152,7 @@ FLOORS = {
                  "not_fired_checks": 14000, "not_fired_nor_failed_on_foreign_events_checks": 900, "foreign_window_runs": 200, "gethost_compared": 500, "stop_checked": 500, "stops_after_restart_checked": 250, "leak_checks_after_failure": 3500,
                  "failure_errors_compared": 3000, "refusals_before_start_checked": 10, "reactor_watched_for_starts_before_refusal": 14, "config_bootstrap_failures_compared": 400,
                  "preconfigured_directory_runs": 15, "twin_runs": 20, "twin_successes_checked": 18, "own_failed_events:REASON=UNEXPECTED": 60, "own_failed_events:REASON=-": 40,
-                 "cancellations_checked": 900, "cancelled:cancelled-during-descriptor-wait": 200, "cancelled:cancelled-while-creating": 200,
+                 "open_listeners_checked_at_the_instant_of_failure": 3500, "cancellations_checked": 900, "cancelled:cancelled-during-descriptor-wait": 200, "cancelled:cancelled-while-creating": 200,
                  "cancelled:cancelled-before-bind": 150, "relisten_runs": 400, "relisten_successes_checked": 200,
                  "relisten_open_listener_checks": 130, "relisten_failures_checked": 20, "relisten:after-stop-port-taken": 70,
                  "relisten:after-service-removed": 70, "relisten:without-stop": 70, "fault:reject-line": 400, "route:ctor-raw": 400, "fault:close-on-line": 1200,
@@ -426,6 +428,8 @@ class Obs(object):
         self.uploaded_for = {}            # service id -> own UPLOADED events sent so far
         self.relisten = None              # observations of the second listen() on the same endpoint object
         self.failed_reasons = []
+        self.async_stops_completed = 0
+        self.open_when_listen_fired = None     # the reactor's open listeners at the instant listen()'s Deferred fired
         self.twin = None                  # observations of a second endpoint made from the same Tor object
         self.first_sid = None             # HS_DESC address of the service of the first listen()
         self.cancelled = None             # {"bound": bool, "create_acked": bool, "how": ...} when the caller cancelled before listen() fired
@@ -495,6 +499,7 @@ class World(object):
             self.tor.authenticated = False
             self.other_dir = other if r0 and r0 != "close" and r0[0] == 250 else None
         self.reactor = FakeReactor(first_port=case.get("first_port") or self.cell.get("first_port") or 41000)
+        self.reactor.hold_stop_listening = True       # see pump()
         self._wrap_listen()
         self.link = None
         self.proto = None
@@ -586,6 +591,13 @@ class World(object):
     def pump(self):
         if self.link is not None and not self.link.lost:
             self.link.pump()
+        self.reactor.flush()
+        # a listening port closes asynchronously, like a real twisted Port: stopListening() hands out an unfired Deferred and the
+        # close completes here, on a later reactor turn
+        for lp in list(self.reactor.ports):
+            if getattr(lp, "_stopping", None) is not None:
+                lp.finish_stop()
+                self.obs.async_stops_completed += 1
         self.reactor.flush()
         if self.link is not None and not self.link.lost:
             self.link.pump()
@@ -705,6 +717,7 @@ class World(object):
         # second endpoint's listeners are judged
         for lp in self.reactor.open_ports():
             lp.stopListening()
+            lp.finish_stop()
         self.reactor.flush()
         del self.obs.listen_calls[:]
 
@@ -1100,6 +1113,7 @@ def execute(case):
             relisten_mode = w.fault[2] if w.fault[0] == "none" else "after-failed-listen"
 
         def snap(res):
+            obs.open_when_listen_fired = w.open_ports()
             obs.at_fire = {"lost": bool(w.link is not None and w.link.lost),
                            "create_acked": _create_acked(w),
                            "own_uploaded_sent": obs.own_uploaded_sent,
@@ -1930,6 +1944,15 @@ def judge_first(w, rec, case):
         V("listen-failed-with-another-error", cls, det)
     if obs.open_at_end:
         V("listener-left-open-after-failure", cls, {"open": obs.open_at_end, "listen": o.describe()})
+    elif obs.cancelled is not None:
+        rec.count("instant_of_failure_not_judged_after_caller_cancel")     # the caller may have interrupted the wait for the close itself
+    else:
+        # ... and already at the instant listen() reported the failure (closing takes a reactor turn: the close has to be awaited)
+        rec.count("open_listeners_checked_at_the_instant_of_failure")
+        twin_p = w.twin_port()
+        still = [x for x in (obs.open_when_listen_fired or []) if x[1] != twin_p]
+        if still:
+            V("listener-still-open-when-listen-failed", cls, {"open_at_that_instant": still, "listen": o.describe()})
     return bad, True
 
 
